@@ -1,17 +1,32 @@
 #!/usr/bin/env python3
-"""tools/keepmutant.py <ID> <srcdir> <name> <caught_by> [<needs>] — copy an independently produced mutant (patch.diff, demo.py, notes.md) into seeded/<ID>-<name>/ with meta.json"""
+"""tools/keepmutant.py <ID> <srcdir> <name> [<caught_by>] — copy an independently produced mutant (patch.diff, demo.py, notes.md)
+into seeded/<ID>-ind-<name>/ with meta.json.  The verdict (caught / concrete / detail) is taken from the LAST matching line of
+/work/trials.jsonl unless <caught_by> is given."""
 import json, shutil, sys
 from pathlib import Path
-pid, src, name, caught = sys.argv[1:5]
-needs = sys.argv[5] if len(sys.argv) > 5 else ""
-src = Path(src); dst = Path("/verif/seeded") / f"{pid}-{name}"
+pid, src, name = sys.argv[1:4]
+caught = sys.argv[4] if len(sys.argv) > 4 else None
+src = Path(src); dst = Path("/verif/seeded") / f"{pid}-ind-{name}"
 dst.mkdir(parents=True, exist_ok=True)
 for f in ("patch.diff", "demo.py", "notes.md"):
     if (src / f).exists():
         shutil.copy(src / f, dst / f)
-notes = (src / "notes.md").read_text()[:1500] if (src / "notes.md").exists() else ""
+trial = None
+for line in open("/work/trials.jsonl"):
+    r = json.loads(line)
+    if r["dir"] == str(src) and r["pid"] == pid:
+        trial = r
+status = "not run"
+if trial:
+    bad = any(rc != "0" for _, rc in trial["rcs"])
+    conc = any("no-failing-input-found" not in v for v in trial["violations"])
+    status = ("caught, concrete replay" if conc else "caught, no-failing-input-found") if bad else "MISSED"
+    if caught is None:
+        caught = "; ".join(d.strip()[:220] for d in trial["detail"][:2]) or status
+notes = (src / "notes.md").read_text() if (src / "notes.md").exists() else ""
 (dst / "meta.json").write_text(json.dumps(dict(property=pid, origin="independent sub-agent given only the property text and a scratch worktree of /repo",
-    what_it_needs_to_manifest=needs or notes[:600], caught_by=caught,
-    command=f"tools/trymutant.sh seeded/{pid}-{name}/patch.diff seeded/{pid}-{name}/demo.py {pid}",
-    confirmed_by_lead="patch applies to /repo HEAD in a scratch worktree; demo exits 0 without and non-zero with the patch; check run against the patched tree"), indent=1))
-print(dst)
+    what_it_needs_to_manifest=notes[:900], status=status, caught_by=caught,
+    demo_exit_codes=dict(unchanged=trial and trial["demo_clean"], patched=trial and trial["demo_patched"]),
+    command=f"tools/trial.sh lead seeded/{pid}-ind-{name}/patch.diff seeded/{pid}-ind-{name}/demo.py {pid}",
+    confirmed_by_lead="patch applies to /repo HEAD in a scratch worktree; demo exits 0 without and non-zero with the patch; quick check run against the patched tree (tools/trial.sh)"), indent=1))
+print(dst, status)
